@@ -7,6 +7,7 @@
   also runs the same family on the C implementation itself.
 -/
 import AL.Properties.SweepDefs
+import AL.Spec.X86FamiliesExtra
 namespace AL.Properties.Sweep
 open AL.Spec.X86
 
@@ -25,5 +26,9 @@ def sibSensitive (it : Item) : Bool :=
 /-- **C02, the mixed SIB settings**: swap NASM with no-base STRICT (6) and swap STRICT with no-base NASM (10) on every instance
     either option can touch -/
 theorem c02_sweep_mixed : sweep [6, 10] ((famC02 0).filter sibSensitive) = true := by native_decide
+
+/-- **C02, the ends of the disp32 range**: −2^31, 2^31 − 1 and their neighbours on every kind of memory shape under a representative of
+    every encoding class, hexadecimal and decimal (family `famC02x`) -/
+theorem c02_sweep_extreme : sweep [14, 2] famC02x = true := by native_decide
 
 end AL.Properties.Sweep
